@@ -46,16 +46,19 @@ let run (cases : string) : unit =
       | "A" :: id :: kind :: deps :: spawn :: events ->
           let ak = match kind with "B" -> ABuild | "S" -> AService | _ -> AAggregate in
           let deps = if deps = "-" then [] else List.map (fun d -> n_of_int (int_of_string d)) (String.split_on_char ',' deps) in
-          let spawn_ok = spawn = "1" in
+          let skip_mode = spawn = "2" in
+          let spawn_ok = spawn = "1" || skip_mode in
           let st = ref (init_actor (n_of_int 100) ak deps) in
           let starts = ref 0 in
+          let nbd = ref 0 in
+          let bds = ref [] in
           let res = ref [] in
           List.iter
             (fun ev ->
               let tok = match String.index_opt ev '@' with Some i -> String.sub ev 0 i | None -> ev in
               let e = parse_event tok in
-              match actor_step late_ack spawn_ok !st e with
-              | None -> res := "-" :: !res
+              match (if skip_mode && (match e with EBuildDone _ -> true | _ -> false) then None else actor_step late_ack spawn_ok !st e) with
+              | None -> res := "-" :: !res; bds := !nbd :: !bds
               | Some ((a1, outs), obs) ->
                   let a1, outs, obs =
                     (* a termination received during a build kills the script: the Cancelled result follows *)
@@ -65,9 +68,24 @@ let run (cases : string) : unit =
                       | None -> (a1, outs, obs)
                     else (a1, outs, obs)
                   in
+                  (* skip mode: an execution that starts is found Not Modified and ends Skipped by itself; if that re-arms
+                     the actor (invalidated meanwhile) the next execution is skipped as well *)
+                  let a1, outs, obs =
+                    if skip_mode then begin
+                      let a = ref a1 and o = ref outs and b = ref obs and fuel = ref 8 in
+                      while !a.ongoing && (not !a.cancel_sent) && !fuel > 0 do
+                        decr fuel;
+                        match actor_step late_ack spawn_ok !a (EBuildDone RSkipped) with
+                        | Some ((a2, o2), ob2) -> a := a2; o := !o @ o2; b := !b @ ob2; incr nbd
+                        | None -> fuel := 0
+                      done;
+                      (!a, !o, !b)
+                    end else (a1, outs, obs)
+                  in
+                  bds := !nbd :: !bds;
                   st := a1;
                   let is_start o = match ak, o with ABuild, ObStart _ -> true | AService, ObSucc _ -> true | _ -> false in
-                  starts := !starts + count is_start obs;
+                  if not skip_mode then starts := !starts + count is_start obs;
                   let alive = match ak with ABuild -> a1.ongoing | AService -> a1.running | AAggregate -> false in
                   let outs = List.sort compare (List.map fmt_out outs) in
                   res :=
@@ -75,6 +93,7 @@ let run (cases : string) : unit =
                       (if alive then 1 else 0) (b01 a1.exited)
                     :: !res)
             events;
-          Printf.printf "%s %s\n" id (String.concat "|" (List.rev !res))
+          Printf.printf "%s %s%s\n" id (String.concat "|" (List.rev !res))
+            (if skip_mode then " #bd=" ^ String.concat "," (List.map string_of_int (List.rev !bds)) else "")
       | _ -> Printf.printf "? BADCASE\n")
     (read_lines cases)
